@@ -475,6 +475,9 @@ func (e *Env) evalCall(n *SCall) Val {
 			ref = v.Fs[0].S
 		}
 		return boolVal(And(app(">=", ref, h.alloc(e.old)), app("<", ref, h.alloc(e.cur))))
+	case "chanclosed":
+		v := arg(0)
+		return boolVal(e.x.chanClosed(e.cur, v.S))
 	case "hasdeadline":
 		// hasdeadline(ctx): ctx was derived by context.WithTimeout (ghost typestate)
 		v := arg(0)
